@@ -58,6 +58,11 @@ inductive Err where
 
 structure St where
   heap : Array Obj := #[]
+  /-- array header ↦ store of the array `append` built from it: in the real implementation the two may
+  share storage, depending on hidden capacity -/
+  appendedFrom : List (Nat × Nat) := []
+  /-- stores written (element assignment, splice) after they were created -/
+  dirty : List Nat := []
   deriving Inhabited
 
 abbrev M := StateT St (Except Err)
@@ -210,6 +215,11 @@ def typeName : Value → String
 
 /-- Elements of an array value (mutable or immutable). -/
 def arrElems (r : Nat) : M (List Value) := do
+  let s ← get
+  match s.appendedFrom.lookup r with
+  | some p => if s.dirty.contains p then
+      throw (Err.excluded "read of an array after the result of append() on it was modified (hidden capacity)")
+  | none => pure ()
   match ← getObj r with
   | .arr st off len =>
     match ← getObj st with
@@ -221,6 +231,21 @@ def mapEntries (r : Nat) : M (List (Bytes × Value)) := do
   match ← getObj r with
   | .map kvs => pure kvs
   | _ => unsupported "bad map ref"
+
+/-- Record that the store behind array header `r` is about to be written. -/
+def noteWrite (r : Nat) : M Unit := do
+  let s ← get
+  if (s.appendedFrom.lookup r).isSome then
+    throw (Err.excluded "write to an array after append() was applied to it (hidden capacity)")
+  match s.heap[r]? with
+  | some (.arr st _ _) => set { s with dirty := st :: s.dirty }
+  | _ => pure ()
+
+def noteAppend (src result : Nat) : M Unit := do
+  let s ← get
+  match s.heap[result]? with
+  | some (.arr st _ _) => set { s with appendedFrom := (src, st) :: s.appendedFrom }
+  | _ => pure ()
 
 def isFalsy : Value → M Bool
   | .undef => pure true
